@@ -125,7 +125,7 @@ fn check_frame(e: &mut Emu, m128: bool, shadow: bool, path: &str, ctx: &mut RunC
     ))
 }
 
-const PATHS: [&str; 9] = ["hook", "cpu_4000", "cpu_c000", "poke", "scr", "sna", "szx", "fastload", "poke_c000"];
+const PATHS: [&str; 10] = ["hook", "cpu_4000", "cpu_c000", "poke", "scr", "sna", "szx", "fastload", "poke_c000", "fastload_part"];
 
 impl Property for C08 {
     fn id(&self) -> &'static str {
@@ -133,8 +133,8 @@ impl Property for C08 {
     }
     fn runs(&self, tier: Tier) -> u64 {
         match tier {
-            Tier::Quick => 320,
-            Tier::Thorough => 24_000,
+            Tier::Quick => 1_600,
+            Tier::Thorough => 48_000,
         }
     }
     fn rule(&self) -> &'static str {
@@ -157,7 +157,7 @@ impl Property for C08 {
         ]
     }
     fn expected_probes(&self) -> Vec<&'static str> {
-        vec!["path_cpu_c000_bank7", "shadow_displayed", "flash_runs_checked", "beam_before", "beam_after", "path_poke", "path_sna", "path_szx", "path_scr", "path_fastload", "beam_host_write"]
+        vec!["path_cpu_c000_bank7", "shadow_displayed", "flash_runs_checked", "beam_before", "beam_after", "path_poke", "path_sna", "path_szx", "path_scr", "path_fastload", "path_fastload_part", "path_fastload_c000", "beam_host_write", "beam_paging_write_same_frame"]
     }
 
     fn gen(&self, rng: &mut Rng, tier: Tier, idx: u64) -> Scenario {
@@ -173,12 +173,18 @@ impl Property for C08 {
         sc.set("content_seed", (rng.next() >> 2) as i64);
         match kind {
             0 => {
-                let mut path = rng.range(0, 8);
+                let mut path = rng.range(0, 9);
                 if !m128 && (path == 2 || path == 8) {
                     path = 1;
                 }
                 sc.set("path", path);
-                sc.set("target7", (m128 && (path == 2 || path == 8 || path == 0) && rng.bool()) as i64);
+                sc.set("target7", (m128 && (path == 2 || path == 8 || path == 0 || path == 9) && rng.bool()) as i64);
+                // partial fast load: window (0x4000 or, 128K, 0xC000 with bank 5/7 paged), offset and length
+                sc.set("fl_c000", (m128 && rng.bool()) as i64);
+                let (r1, r2, r3) = (rng.range(0, 0x1AFF), rng.range(1, 6912), rng.range(1, 300));
+                sc.set("fl_off", *rng.pick(&[0i64, 0, 1, 0x17FF, 0x1800, 0x1AFF, r1]));
+                sc.set("fl_len", *rng.pick(&[1i64, 2, 256, 6912, r2, r3]));
+                sc.set("fl_lead", *rng.pick(&[0i64, 0, 1, 256]));
                 sc.set("shadow", (m128 && rng.bool()) as i64);
                 sc.set("chunk", *rng.pick(&[0i64, 1, 100, 4096]));
                 sc.set("frames", rng.range(2, 5));
@@ -198,6 +204,10 @@ impl Property for C08 {
                 sc.set("lines", rng.range(2, 40));
                 sc.set("writer", rng.range(0, 2));
                 sc.set("shadow", 0);
+                // 128K: a paging write that leaves the displayed screen alone, in the same frame
+                // (0 none, 1 right after the byte write, 2 right before it)
+                sc.set("pg_when", if m128 { rng.range(0, 2) } else { 0 });
+                sc.set("pg_val", *rng.pick(&[0x00i64, 0x01, 0x07, 0x10, 0x13, 0x05]));
             }
         }
         sc
@@ -213,12 +223,12 @@ impl Property for C08 {
         idle_cpu(&mut e);
         match sc.get("kind") {
             0 => {
-                let path = sc.get("path").clamp(0, 8) as usize;
+                let path = sc.get("path").clamp(0, 9) as usize;
                 let pname = PATHS[path];
                 if !m128 && (path == 2 || path == 8) {
                     return Ok(());
                 }
-                let target7 = m128 && sc.get("target7") != 0 && (path == 0 || path == 2 || path == 8);
+                let target7 = m128 && sc.get("target7") != 0 && (path == 0 || path == 2 || path == 8 || path == 9);
                 let chunk = sc.get("chunk").max(0) as usize;
                 let plan = AssetPlan { max_chunk: chunk, ..Default::default() };
                 // other screen bank gets different recognisable content
@@ -303,6 +313,43 @@ impl Property for C08 {
                         let r = if path == 5 { e.load_snapshot(Snapshot::Sna(a)) } else { e.load_snapshot(Snapshot::Szx(a)) };
                         r.map_err(|x| Fail::new("C08.load_snapshot", &format!("path={}", pname), format!("loading a well-formed snapshot failed: {:?}", x)))?;
                     }
+                    9 => {
+                        // tape fast-load of a block that covers only a part of the display file (possibly
+                        // starting below it), through 0x4000 or through 0xC000 with a screen bank paged there
+                        ctx.probe("path_fastload_part");
+                        let via_c000 = m128 && sc.get("fl_c000") != 0;
+                        let bank: u8 = if via_c000 { page_at_c000 } else { 5 };
+                        // known picture first (raw page write + refresh), then the block on top of it
+                        e.verif_ram_page(phys_screen_page(m128, bank == 7))[..6912].copy_from_slice(&scr);
+                        e.verif_refresh_screen();
+                        let lead = sc.get("fl_lead").clamp(0, 1024) as u16;
+                        let off = sc.get("fl_off").clamp(0, 0x1AFF) as u16;
+                        let len = sc.get("fl_len").clamp(1, 6912 + 1024) as usize;
+                        let base: u16 = if via_c000 { 0xC000 } else { 0x4000 };
+                        // a block through 0x4000 may start in ROM (lead bytes are dropped there); through 0xC000 it
+                        // starts in bank 2 below the window: keep clear of the stub / stack area at 0x8000-0x8FFF
+                        let dest = (base + off).wrapping_sub(if via_c000 { 0 } else { lead });
+                        let len = len.min(0x10000 - dest as usize);
+                        let mut data = vec![0u8; len];
+                        rng.fill(&mut data);
+                        if m128 {
+                            e.verif_bus().write_io(0x7FFD, 0x10 | if via_c000 { page_at_c000 } else { 0 });
+                            if via_c000 {
+                                ctx.probe("path_fastload_c000");
+                            }
+                        }
+                        let blk = tape::std_block(0xFF, &data);
+                        let img = tape::make_tap(&[blk]);
+                        e.load_tape(Tape::Tap(AnyAsset::Sim(SimAsset::new(img, plan).0))).map_err(|x| Fail::new("C08.load_tape", "", format!("{:?}", x)))?;
+                        let ok = call_ld_bytes(&mut e, 0xFF, true, dest, len as u16, 0x8FF0, 0x8200, 50).map_err(|x| Fail::new("C08.fastload", "", x))?;
+                        if !ok {
+                            return Err(Fail::new("C08.fastload_no_return", "", format!("fast load of a {}-byte block to {:04X} did not return", len, dest)));
+                        }
+                        idle_cpu(&mut e);
+                        if m128 {
+                            e.verif_bus().write_io(0x7FFD, 0x10);
+                        }
+                    }
                     _ => {
                         ctx.probe("path_fastload");
                         if m128 {
@@ -327,7 +374,7 @@ impl Property for C08 {
                         ctx.probe("shadow_displayed");
                     }
                 }
-                if path != 1 && path != 2 && path != 7 {
+                if path != 1 && path != 2 && path != 7 && path != 9 {
                     idle_cpu_keep(&mut e);
                 }
                 // quiet frames
@@ -460,13 +507,27 @@ impl Property for C08 {
                     return Ok(());
                 }
                 let writer = sc.get("writer").clamp(0, 2);
+                let pg_when = if m128 { sc.get("pg_when").clamp(0, 2) } else { 0 };
+                let pg_val = (sc.get("pg_val") & 0x17) as u8; // screen bit and lock bit stay clear
+                if pg_when != 0 {
+                    ctx.probe("beam_paging_write_same_frame");
+                }
                 if writer == 0 {
-                    // program: LD (HL),A ; DI ; JR $
-                    write_mem(&mut e, 0x8300, &[0x77, 0xF3, 0x18, 0xFE]);
+                    // program: [paging OUT] ; LD (HL),A ; [paging OUT] ; DI ; JR $
+                    let out = [0x01u8, 0xFD, 0x7F, 0x3E, pg_val, 0xED, 0x79]; // LD BC,7FFD; LD A,v; OUT (C),A
+                    let mut prog: Vec<u8> = vec![];
+                    if pg_when == 2 {
+                        prog.extend_from_slice(&out);
+                    }
+                    prog.extend_from_slice(&[0x3E, new, 0x77]); // LD A,new; LD (HL),A
+                    if pg_when == 1 {
+                        prog.extend_from_slice(&out);
+                    }
+                    prog.extend_from_slice(&[0xF3, 0x18, 0xFE]);
+                    write_mem(&mut e, 0x8300, &prog);
                     let mut st = cpu_state(&mut e);
                     st.pc = 0x8300;
                     st.hl = 0x4000 + off as u16;
-                    st.af = (new as u16) << 8;
                     st.to_impl(e.verif_cpu());
                     e.verif_set_frame_clocks(t_w as usize);
                 } else {
@@ -475,10 +536,16 @@ impl Property for C08 {
                     ctx.probe("beam_host_write");
                     e.verif_set_frame_clocks(t_w as usize);
                     step_public(&mut e).map_err(|x| Fail::new("C08.step", "", x))?;
+                    if pg_when == 2 {
+                        e.verif_bus().write_io(0x7FFD, pg_val);
+                    }
                     if writer == 1 {
                         e.execute_poke(Pokes(vec![PokeAction::mem(0x4000 + off as u16, new)]));
                     } else {
                         write_mem(&mut e, 0x4000 + off as u16, &[new]);
+                    }
+                    if pg_when == 1 {
+                        e.verif_bus().write_io(0x7FFD, pg_val);
                     }
                 }
                 run_frames(&mut e, 1).map_err(|x| Fail::new("C08.run", "", x))?;
